@@ -151,6 +151,17 @@ theorem add_nopin_corner_fails :
     holds witAdd (runWith Gen.C12.methods Gen.C12.routes false witAdd { root := [7], items := [[7]] }) = false := by decide
 theorem redirect_corner_fails : holds witRedirect (run witRedirect { root := [], items := [[]] }) = false := by decide
 
+/-- add?pin=false with the well-typed Unpin argument (source since fix 227da32) when the trailing Unpin RPC fails:
+    the content was added and pinned, the answer carries an error (what remains of K32) -/
+theorem add_unpin_fails_corner :
+    holds { witAdd with env := { witAdd.env with fails := [.unpin] } }
+      (runWith Gen.C12.methods Gen.C12.routes true { witAdd with env := { witAdd.env with fails := [.unpin] } }
+        { root := [7], items := [[7]] }) = false := by decide
+
+/-- … and it is met when that Unpin goes through -/
+theorem add_nopin_typed_ok :
+    holds witAdd (runWith Gen.C12.methods Gen.C12.routes true witAdd { root := [7], items := [[7]] }) = true := by decide
+
 /-- a non-trivial input outside the corners: POST /api/v0/pin/add/<arg>?type=direct -/
 example : corner false { witAdd with path := b!"/api/v0/pin/add/x", query := some (b!"type=direct") } = false := by decide
 
